@@ -1,9 +1,159 @@
 import UF.Driver.Decode
+import UF.Driver.Ops.GroupE
+import UF.Driver.Ops.GroupH
+import UF.Compose2.MatchFull
+import UF.Compose2.NewRuleFull
+import UF.Compose2.RegexShortcut
 /- Ops of work group I2 (see notes/AGENT_GUIDE.md). Return `none` for ops of other groups. -/
+namespace UF.Ops.I2
+open UF UF.I2
+
+/-- `i2.pat <stored pattern> <matchCase> <target>`: model = `modelPat` (`ood` outside its domain);
+    spec = the documented mask language for patterns that are not `/regex/`. -/
+def opPat (args : List W) : String :=
+  match args with
+  | [p, mc, u] =>
+    match p.bytes?, mc.bool?, u.bytes? with
+    | some p, some mc, some u =>
+      match modelPat p mc u with
+      | none => "ood -"
+      | some b =>
+        outBool b ++ " " ++
+          (if UF.isRegexPattern p then "-" else outBool (MaskSpec.maskAccepts (MaskSpec.tokenize p) mc u))
+    | _, _, _ => "bad-decode"
+  | _ => "bad-arity"
+
+/-- `i2.match <R> <Q> <psl> <addrs>`: the whole of `NetworkRule.Match` in the model — NO pattern oracle:
+    `Ext.pat` is `modelPat`.  `ood` when the pattern answer is needed and outside the models' domain.
+    spec = `specMatchFull` (mask rules, request in the domain of C04) or `specMatch` over `modelPat`. -/
+def opMatch (args : List W) : String :=
+  match args with
+  | [r, q, psl, addrs] =>
+    match decNetRule r, decRequest q, decPslTable psl, decAddrTable addrs with
+    | some r, some q, some psl, some addrs =>
+      let ext := withModelPat (mkExt psl addrs [])
+      if !matchDecided ext r q then "ood -" else
+      let spec :=
+        if !q.inDomainB then "-"
+        else if (modelPat r.pattern (r.isEnabled Facts.OptionMatchCase) (matchTarget r q)).isSome then
+          if UF.isRegexPattern r.pattern then outBool (specMatch ext r q) else outBool (specMatchFull ext r q)
+        else "-"
+      outBool (r.matches ext q) ++ " " ++ spec
+    | _, _, _, _ => "bad-decode"
+  | _ => "bad-arity"
+
+/-! ### The complete model of `rules.NewRule` -/
+
+def encCosRule (c : CosRule) : String :=
+  outList ["K", outBytes c.text, toString c.listID, outBytes c.content, encStrs c.permDomains,
+    encStrs c.restrDomains, outBool c.whitelist]
+
+def encRule : Rule → String
+  | .net r => encNetRule r
+  | .host h => H.encHostRule h
+  | .cos c => encCosRule c
+
+def outNewRule (x : E.PE (Option Rule)) : String :=
+  match x with
+  | .ok none => "none"
+  | .ok (some r) => H.tok (encRule r)
+  | .error .err => "err"
+  | .error .panic => "PANIC"
+
+/-- The complete rule parser with the `$dnsrewrite` values outside the domain of group H's ASCII model
+    of `ToUpper`/`EqualFold` answered by `dflt` (the driver runs it with two different defaults: if the
+    outcomes differ, such a value mattered and the line is out of domain). -/
+def ruleExtProbe (ext : Ext) (reShortcut : Bytes → Bytes) (dflt : Option DnsRewrite) : E.RuleExt :=
+  let rx := fullRuleExt ext reShortcut
+  { rx with px := { rx.px with loadDNSRewrite := fun v => if H.dnsRewriteInDomain v then rx.px.loadDNSRewrite v else dflt } }
+
+/-- `strings.ToLower` of the shortcut is modelled on ASCII. -/
+def ruleInDomain (x : E.PE (Option Rule)) : Bool :=
+  match x with
+  | .ok (some (.net r)) => Bytes.isAscii r.shortcut
+  | _ => true
+
+def mkParserExt (addrs : List (Bytes × Option Addr)) (prefixes : List (Bytes × Option Prefix)) : Ext :=
+  { mkExt [] addrs [] with parsePrefix := tableLookup prefixes none }
+
+/-- `i2.newrule <line> <listID> <addrs> <prefixes>`: the complete model of `rules.NewRule`; the answer
+    is the whole parsed record (`R`/`H`/`K` dump), `none`, `err` or `PANIC`.  The only Go-supplied
+    tables: `netip.ParseAddr`, `netip.ParsePrefix`.  (The shortcut of a `/regex/` pattern comes from
+    `modelRegexpShortcut`; `ood` when the expression is outside its domain.) -/
+def opNewRule (args : List W) : String :=
+  match args with
+  | [line, id, addrs, prefixes] =>
+    match line.bytes?, id.int?, decAddrTable addrs, decPrefixTable prefixes with
+    | some line, some id, some addrs, some prefixes =>
+      let ext := mkParserExt addrs prefixes
+      let a := E.newRule (ruleExtProbe ext reShortcutM none) line id
+      let b := E.newRule (ruleExtProbe ext reShortcutM (some {})) line id
+      if outNewRule a != outNewRule b || !ruleInDomain a || !ruleShortcutInDomain a then "ood -"
+      else outNewRule a ++ " -"
+    | _, _, _, _ => "bad-decode"
+  | _ => "bad-arity"
+
+/-- Is the request well formed in the sense of C05 (`URLLowerCase = ToLower(URL)`, and for hostname
+    requests the hostname is a factor of the URL)? -/
+def reqWellFormed (q : Request) : Bool :=
+  q.urlLower == Bytes.toLower q.url && (!q.isHostnameRequest || Bytes.hasSub q.url q.hostname)
+
+/-- `i2.textmatch <text> <listID> <addrs> <prefixes> <Q> <psl>`: everything from the rule TEXT — parse
+    with the complete parser model (regex shortcut included), match with `modelPat`; no Go-supplied
+    table but psl / addr / prefix.
+    spec: mask rules, request in the domain → `specMatchNoShortcut` (modifiers as set membership + the
+    documented mask language, no shortcut test: theorem `c04_full_end_to_end`) for well-formed requests,
+    `specMatchFull` otherwise; `/regex/` rules → `specMatch` over `modelPat`. -/
+def opTextMatch (args : List W) : String :=
+  match args with
+  | [text, id, addrs, prefixes, q, psl] =>
+    match text.bytes?, id.int?, decAddrTable addrs, decPrefixTable prefixes,
+        decRequest q, decPslTable psl with
+    | some text, some id, some addrs, some prefixes, some q, some psl =>
+      let ext := withModelPat { mkExt psl addrs [] with parsePrefix := tableLookup prefixes none }
+      let pa := E.parseNetRule (ruleExtProbe ext reShortcutM none).px text id
+      let pb := E.parseNetRule (ruleExtProbe ext reShortcutM (some {})).px text id
+      if outParse pa != outParse pb || !parseInDomain pa ||
+          !ruleShortcutInDomain (pa.map fun r => some (.net r)) then "ood -" else
+      match pa with
+      | .error .err => "err err"
+      | .error .panic => "PANIC PANIC"
+      | .ok r =>
+        if !matchDecided ext r q then "ood -" else
+        let decided := (modelPat r.pattern (r.isEnabled Facts.OptionMatchCase) (matchTarget r q)).isSome
+        let spec :=
+          if !q.inDomainB || !decided then "-"
+          else if UF.isRegexPattern r.pattern then outBool (specMatch ext r q)
+          else if reqWellFormed q then outBool (specMatchNoShortcut ext r q)
+          else outBool (specMatchFull ext r q)
+        outBool (r.matches ext q) ++ " " ++ spec
+    | _, _, _, _, _, _ => "bad-decode"
+  | _ => "bad-arity"
+
+/-- `i2.reshortcut <pattern>`: `findRegexpShortcut` from the TEXT of a `/regex/` pattern (candidate
+    generation + required literals of Go's tree, modelled); `ood` outside the parser's subset. -/
+def opReShortcut (args : List W) : String :=
+  match args with
+  | [p] =>
+    match p.bytes? with
+    | some p =>
+      match modelRegexpShortcut p with
+      | some s => outBytes s ++ " -"
+      | none => "ood -"
+    | none => "bad-decode"
+  | _ => "bad-arity"
+
+end UF.Ops.I2
+
 namespace UF.Ops
 
 def dispatchI2 (op : String) (args : List W) : Option String :=
-  match op, args with
-  | _, _ => none
+  match op with
+  | "i2.pat" => some (I2.opPat args)
+  | "i2.match" => some (I2.opMatch args)
+  | "i2.newrule" => some (I2.opNewRule args)
+  | "i2.textmatch" => some (I2.opTextMatch args)
+  | "i2.reshortcut" => some (I2.opReShortcut args)
+  | _ => none
 
 end UF.Ops
